@@ -1,7 +1,13 @@
 //! Component-level workloads (remote reads, ELF identification, directory writer).
 
+use crate::dest::SimDest;
+use crate::oracle::{v, Violation};
 use crate::run::*;
 use crate::scenario::*;
+use minidump_writer::dir_section::DirSection;
+use minidump_writer::mem_writer::{write_string_to_location, Buffer, MemoryArrayWriter, MemoryWriter};
+use minidump_writer::minidump_format::{MDLocationDescriptor, MDRawDirectory};
+use std::panic::{catch_unwind, AssertUnwindSafe};
 
 pub fn run_memread(_world: &World, _ops: &[MemReadOp]) -> Vec<MemReadOutcome> {
     Vec::new()
@@ -9,10 +15,240 @@ pub fn run_memread(_world: &World, _ops: &[MemReadOp]) -> Vec<MemReadOutcome> {
 pub fn run_elfid(_world: &World, _p: &ElfIdPlan) -> ElfOutcome {
     ElfOutcome::default()
 }
+
+pub fn dir_header(seed: u64) -> Vec<u8> {
+    (0..32u64).map(|i| (crate::rng::mix64(i, seed) & 0xff) as u8).collect()
+}
+
 pub fn run_dirsection(p: &DirPlan, seed: u64) -> DirOutcome {
-    DirOutcome {
-        dest: crate::dest::SimDest::new(&p.dest, seed),
-        steps: Vec::new(),
-        panicked: None,
+    let mut dest = SimDest::new(&p.dest, seed);
+    let mut steps: Vec<DirStep> = Vec::new();
+    let mut panicked = None;
+    {
+        let destref = &mut dest;
+        let r = catch_unwind(AssertUnwindSafe(|| {
+            let mut steps: Vec<DirStep> = Vec::new();
+            let mut buffer = Buffer::with_capacity(0);
+            MemoryArrayWriter::write_bytes(&mut buffer, &dir_header(seed));
+            let mut dir = match DirSection::new(&mut buffer, p.slots, destref) {
+                Ok(d) => d,
+                Err(_) => {
+                    steps.push(DirStep { image_len: buffer.len() as u64, image: buffer.to_vec(), ok: false, dest_ops_after: 0 });
+                    return steps;
+                }
+            };
+            steps.push(DirStep { image_len: buffer.len() as u64, image: buffer.to_vec(), ok: true, dest_ops_after: 0 });
+            let mut allocs: Vec<MDLocationDescriptor> = Vec::new();
+            let mut arrays: Vec<MemoryArrayWriter<u64>> = Vec::new();
+            for op in &p.ops {
+                let ok = match op {
+                    DirOp::AllocU32(x) => match MemoryWriter::<u32>::alloc_with_val(&mut buffer, *x) {
+                        Ok(w) => {
+                            allocs.push(w.location());
+                            true
+                        }
+                        Err(_) => false,
+                    },
+                    DirOp::AllocBytes(b) => {
+                        let w = MemoryArrayWriter::write_bytes(&mut buffer, &b.0);
+                        allocs.push(w.location());
+                        true
+                    }
+                    DirOp::AllocArrayU64(n) => match MemoryArrayWriter::<u64>::alloc_array(&mut buffer, *n as usize) {
+                        Ok(w) => {
+                            allocs.push(w.location());
+                            arrays.push(w);
+                            true
+                        }
+                        Err(_) => false,
+                    },
+                    DirOp::SetU64 { array, idx, val } => match arrays.get_mut(*array as usize) {
+                        Some(a) => a.set_value_at(&mut buffer, *val, *idx as usize).is_ok(),
+                        None => true,
+                    },
+                    DirOp::WriteString(s) => match write_string_to_location(&mut buffer, s) {
+                        Ok(l) => {
+                            allocs.push(l);
+                            true
+                        }
+                        Err(_) => false,
+                    },
+                    DirOp::Flush => dir.write_to_file(&mut buffer, None).is_ok(),
+                    DirOp::Dirent { stream_type, from_alloc } => {
+                        let location = allocs.get(*from_alloc as usize).copied().unwrap_or(MDLocationDescriptor { data_size: 0, rva: 0 });
+                        dir.write_to_file(&mut buffer, Some(MDRawDirectory { stream_type: *stream_type, location })).is_ok()
+                    }
+                };
+                steps.push(DirStep { image_len: buffer.len() as u64, image: buffer.to_vec(), ok, dest_ops_after: 0 });
+                if !ok {
+                    break;
+                }
+            }
+            steps
+        }));
+        match r {
+            Ok(s) => steps = s,
+            Err(_) => {
+                panicked = Some(LAST_PANIC.lock().ok().and_then(|g| g.clone()).unwrap_or_default());
+            }
+        }
     }
+    DirOutcome { dest, steps, panicked }
+}
+
+fn put_at(v: &mut Vec<u8>, pos: usize, bytes: &[u8]) {
+    if bytes.is_empty() {
+        return;
+    }
+    if v.len() < pos + bytes.len() {
+        v.resize(pos + bytes.len(), 0);
+    }
+    v[pos..pos + bytes.len()].copy_from_slice(bytes);
+}
+
+/// Reference model of the directory writer: (image, file, start, flushed, idx).
+pub fn check_dirsection(sc: &Scenario, d: &DirOutcome) -> Vec<Violation> {
+    let mut out = Vec::new();
+    let Workload::DirSection(p) = &sc.workload else { return out };
+    if let Some(pm) = &d.panicked {
+        if !pm.contains("simdest: planned") {
+            out.push(v("C09", "dirsection-panic", pm.clone()));
+        }
+        return out;
+    }
+    let start = p.dest.start as usize;
+    let mut image: Vec<u8> = dir_header(sc.seed);
+    let dir_rva = image.len();
+    image.resize(dir_rva + 12 * p.slots as usize, 0);
+    let mut file = d.dest.pre.clone();
+    let mut flushed = 0usize;
+    let mut idx = 0usize;
+    let mut allocs: Vec<(u32, u32)> = Vec::new(); // (size, rva)
+    let mut arrays: Vec<(usize, usize)> = Vec::new(); // (base, n)
+    // step 0 = construction
+    let Some(s0) = d.steps.first() else { return out };
+    if !s0.ok {
+        return out; // stream_position failed by plan
+    }
+    if s0.image != image {
+        out.push(v("C09", "dirsection-image-differs", "after construction".into()));
+        return out;
+    }
+    // replay of the destination: we compare only the final state precisely and, for every
+    // successful prefix of ops, the model's file against the patches applied so far.
+    let mut last_ok_file = file.clone();
+    for (i, op) in p.ops.iter().enumerate() {
+        let Some(step) = d.steps.get(i + 1) else { break };
+        // writes this op would perform, in order
+        let mut writes: Vec<(usize, Vec<u8>)> = Vec::new();
+        // alternative legal order for a directory entry: append (slot still zero) first, entry second
+        let mut alt_writes: Vec<(usize, Vec<u8>)> = Vec::new();
+        match op {
+            DirOp::AllocU32(x) => {
+                allocs.push((4, image.len() as u32));
+                image.extend_from_slice(&x.to_le_bytes());
+            }
+            DirOp::AllocBytes(b) => {
+                allocs.push((b.0.len() as u32, image.len() as u32));
+                image.extend_from_slice(&b.0);
+            }
+            DirOp::AllocArrayU64(n) => {
+                allocs.push((*n * 8, image.len() as u32));
+                arrays.push((image.len(), *n as usize));
+                image.resize(image.len() + *n as usize * 8, 0);
+            }
+            DirOp::SetU64 { array, idx: k, val } => {
+                if let Some((base, _n)) = arrays.get(*array as usize) {
+                    let pos = base + *k as usize * 8;
+                    put_at(&mut image, pos, &val.to_le_bytes());
+                }
+            }
+            DirOp::WriteString(s) => {
+                let units: Vec<u16> = s.encode_utf16().collect();
+                allocs.push((4 + units.len() as u32 * 2, image.len() as u32));
+                image.extend_from_slice(&(units.len() as u32 * 2).to_le_bytes());
+                for u in units {
+                    image.extend_from_slice(&u.to_le_bytes());
+                }
+            }
+            DirOp::Flush => {
+                if flushed < image.len() {
+                    writes.push((start + flushed, image[flushed..].to_vec()));
+                }
+                flushed = image.len();
+            }
+            DirOp::Dirent { stream_type, from_alloc } => {
+                let (size, rva) = allocs.get(*from_alloc as usize).copied().unwrap_or((0, 0));
+                let mut e = Vec::new();
+                e.extend_from_slice(&stream_type.to_le_bytes());
+                e.extend_from_slice(&size.to_le_bytes());
+                e.extend_from_slice(&rva.to_le_bytes());
+                let pos = dir_rva + 12 * idx;
+                if flushed < image.len() {
+                    alt_writes.push((start + flushed, image[flushed..].to_vec()));
+                }
+                alt_writes.push((start + pos, e.clone()));
+                put_at(&mut image, pos, &e);
+                idx += 1;
+                // the statement fixes what ends up in the destination, not the order of the two writes
+                writes.push((start + pos, e));
+                if flushed < image.len() {
+                    writes.push((start + flushed, image[flushed..].to_vec()));
+                }
+                flushed = image.len();
+            }
+        }
+        if step.ok {
+            if step.image != image {
+                out.push(v("C09", "dirsection-image-differs", format!("after op {} {:?}", i, op)));
+                return out;
+            }
+            for (pos, b) in &writes {
+                put_at(&mut file, *pos, b);
+            }
+            last_ok_file = file.clone();
+        } else {
+            // failed op: destination = last good file + some of this op's writes, the last one possibly partial
+            let mut ok = false;
+            let fdata = &d.dest.data;
+            let variants: Vec<&Vec<(usize, Vec<u8>)>> = if alt_writes.is_empty() { vec![&writes] } else { vec![&writes, &alt_writes] };
+            'outer: for ws in variants {
+                let mut base = last_ok_file.clone();
+                if &base == fdata {
+                    ok = true;
+                    break;
+                }
+                for (pos, b) in ws.iter() {
+                    let mut m = 0;
+                    while m < b.len() && pos + m < fdata.len() && fdata[pos + m] == b[m] {
+                        m += 1;
+                    }
+                    let mut c = base.clone();
+                    put_at(&mut c, *pos, &b[..m]);
+                    if &c == fdata {
+                        ok = true;
+                        break 'outer;
+                    }
+                    put_at(&mut base, *pos, b);
+                    if &base == fdata {
+                        ok = true;
+                        break 'outer;
+                    }
+                }
+            }
+            if !ok {
+                out.push(v("C09", "dirsection-destination-after-error", format!("op {} {:?} failed; destination is not (last flushed state + a prefix of this op's writes)", i, op)));
+            }
+            return out;
+        }
+    }
+    if d.dest.data != last_ok_file {
+        let pos = d.dest.data.iter().zip(last_ok_file.iter()).position(|(a, b)| a != b).unwrap_or(d.dest.data.len().min(last_ok_file.len()));
+        out.push(v(
+            "C09",
+            "dirsection-destination-differs",
+            format!("after {} ops destination ({} bytes) differs from the model ({} bytes) at offset {} (start {})", p.ops.len(), d.dest.data.len(), last_ok_file.len(), pos, start),
+        ));
+    }
+    out
 }
